@@ -11,7 +11,7 @@ use std::convert::TryFrom;
 
 pub fn run(ctx: &Ctx) -> i32 {
     let mon = Mon::new();
-    let n_keys = ctx.tier.pick(33, 129);
+    let n_keys = ctx.tier.pick(33, 400);
     par_cases(ctx, &mon, "key", n_keys, |cc, rng, l| {
         let key = if cc.idx == 0 { hex::decode(HARD_CODED_KEY_HEX).unwrap() } else { rng.bytes(32) };
         let other_key = rng.bytes(32);
@@ -20,7 +20,7 @@ pub fn run(ctx: &Ctx) -> i32 {
         }
     });
     // proof-byte alterations: every single-bit flip of the 80 bytes
-    let n_flip = ctx.tier.pick(96, 800);
+    let n_flip = ctx.tier.pick(96, 2400);
     par_cases(ctx, &mon, "bitflips", n_flip, |cc, rng, l| {
         let cfg = if cc.idx % 2 == 0 { Cfg::Wa } else { Cfg::Exp };
         with_cfg!(cfg, TC, { block_on(flip_case::<TC>(cc, rng, l)) });
@@ -32,7 +32,7 @@ pub fn run(ctx: &Ctx) -> i32 {
         with_cfg!(cfg, TC, { block_on(e2e_case::<TC>(cc, rng, l)) });
     });
     // the tree is made CONSISTENT with an altered claimed node label, so only the VRF binding can reject
-    let n_claim = ctx.tier.pick(960, 6400);
+    let n_claim = ctx.tier.pick(960, 20000);
     par_cases(ctx, &mon, "claim", n_claim, |cc, rng, l| {
         let cfg = if cc.idx % 2 == 0 { Cfg::Wa } else { Cfg::Exp };
         with_cfg!(cfg, TC, { block_on(claim_case::<TC>(cc, rng, l)) });
